@@ -58,6 +58,7 @@ fn main() {
         ("gen", "C06") => codes::generate_c06(&a),
         ("gen", "C07") => codes::generate_c07(&a),
         ("pins", _) => codes::write_pins(&a),
+        ("gen", "SELFTEST") => codes::generate_selftest(&a),
         ("gen", "C08") => c08::generate(&a),
         ("gen", "C09") => c02::generate_c09(&a),
         ("gen", "C11") => c11::generate(&a),
